@@ -14,7 +14,7 @@ from .. import common, build
 from ..common import Check, log
 
 DRIVER = os.path.join(common.VERIF, "scheme", "c01", "driver.scm")
-ENV = {"VERIF_POISON": "1",
+ENV = {"VERIF_POISON": "1", "VERIF_TIME_BUDGET_MS": "40",
        "ASAN_OPTIONS": "detect_leaks=0:detect_odr_violation=0:halt_on_error=0:allocator_may_return_null=1:max_allocation_size_mb=1024:"
                        "detect_stack_use_after_return=0:allow_user_poisoning=1:symbolize=1:print_legend=0:handle_segv=1"}
 LIBS = ["(scheme base)", "(scheme char)", "(scheme cxr)", "(scheme complex)", "(scheme inexact)", "(scheme lazy)", "(scheme read)",
@@ -117,7 +117,7 @@ def run_reader(arg):
 
 # ---------------------------------------------------------------- nesting depth
 NEST_DRIVER = r"""
-(import (scheme base) (scheme write) (scheme read) (scheme eval) (only (chibi) string-join))
+(import (scheme base) (scheme write) (scheme read) (scheme eval))
 (define (rep s n) (let ((o (open-output-string))) (do ((i 0 (+ i 1))) ((= i n)) (write-string s o)) (get-output-string o)))
 (define (deep-list n) (let loop ((i 0) (x '())) (if (= i n) x (loop (+ i 1) (list x)))))
 (define (deep-vector n) (let loop ((i 0) (x '#())) (if (= i n) x (loop (+ i 1) (vector x)))))
@@ -155,6 +155,9 @@ def run_nest(arg):
     common.write_file(p, NEST_DRIVER + "(case-run '%s %d)\n" % (tag, n) + PROBE_AFTER)
     r = common.evalbatch(variant, [p], heap="64M/2G", env=ENV if variant == "asan" else None, timeout=600, cwd=d)
     m = re.search(r"^#N (\S+) (\d+) (\S+)", r.out, re.M)
+    if not m and re.search(r"^;;EXC \d+ \S+ out of stack space", r.out, re.M):
+        # the out-of-stack error object is returned to the embedding caller (it bypasses guard): a legal outcome
+        m = re.match(r"(\S+) (\S+) (\S+)", "%s %d error-to-caller" % (tag, n))
     probe = re.search(r"^#P (.*)$", r.out, re.M)
     import shutil
     shutil.rmtree(d, ignore_errors=True)
@@ -221,6 +224,7 @@ def main(tier):
             if chk.out_of_time():
                 pool.terminate()
                 break
+    log("C01 (1) done: %d calls" % ncalls)
     chk.nontrivial_n += nerr
     chk.exclude("legitimately non-terminating / memory-exhausting call skipped", nskip)
     chk.sample("(substring \"héllo\" -1 4611686018427387904) ; one of the %d x 67^2 two-argument calls" % len(names))
@@ -254,17 +258,26 @@ def main(tier):
             if chk.out_of_time():
                 pool.terminate()
                 break
+    log("C01 (2) done: %d texts" % ntexts)
     chk.cov["texts"] = ntexts
     chk.sample("text bytes 28 c3 22 5c : '(' 0xC3 '\"' '\\\\' fed to read, (scheme read), string->number, eval")
     # ---- (3)
     depths = [10, 1000, 100000] + ([] if quick else [1000000])
     njobs = [(v, t, n) for v in ("asan", "opt") for t in NEST_TAGS for n in depths]
     with Pool(common.NCPU) as pool:
-        for variant, tag, n, outcome, probe, rc, timed_out, sites, tail in pool.imap_unordered(run_nest, njobs):
+        nres = list(pool.imap_unordered(run_nest, njobs))
+    opt_ok = {(tag, n) for variant, tag, n, outcome, probe, rc, timed_out, sites, tail in nres
+              if variant == "opt" and outcome in ("value", "error", "error-to-caller") and rc == 0 and not timed_out}
+    if True:
+        for variant, tag, n, outcome, probe, rc, timed_out, sites, tail in nres:
             chk.count(1, outcome="nest-" + str(outcome))
             if n > 1000:
                 chk.nontrivial_n += 1
-            if outcome not in ("value", "error") or rc != 0 or timed_out or sites:
+            if variant == "asan" and any(k == "stack-overflow" for k, _, _ in sites) and (tag, n) in opt_ok:
+                # C-stack exhaustion that only the instrumented build shows (ASan inflates frames); the plain build is fine
+                chk.exclude("C stack overflow only under ASan frame inflation (plain build ends cleanly)")
+                continue
+            if outcome not in ("value", "error", "error-to-caller") or rc != 0 or timed_out or sites:
                 chk.violation({"op": "nesting:" + tag, "variant": variant, "depth": n, "rc": rc, "hang": timed_out, "sites": sites},
                               "%s at depth %d on the %s build: %s (rc=%s) %s" % (tag, n, variant, "hang" if timed_out else ("no outcome" if outcome is None else outcome), rc, tail[-300:]),
                               NEST_DRIVER + "(case-run '%s %d)\n" % (tag, n) + PROBE_AFTER)
